@@ -156,9 +156,10 @@ func crc32cRef(b []byte) uint32 {
 // stream "rio": writer programs, byte-exact images, all readers (C04)
 
 type wop struct {
-	kind string // "w", "ws", "s"
-	rec  []byte
-	off  uint64
+	kind    string // "w", "ws", "s"
+	rec     []byte
+	off     uint64
+	seekIdx int // for "s": index of the earlier write to seek back to (-1: chosen from off)
 }
 
 type rioCase struct {
@@ -211,7 +212,35 @@ func genRioCase(r *Rng, tier string) *rioCase {
 			c.payloads = append(c.payloads, p)
 		default:
 			// seek: resolved at run time; off encodes the choice
-			c.ops = append(c.ops, wop{kind: "s", off: r.Next()})
+			c.ops = append(c.ops, wop{kind: "s", off: r.Next(), seekIdx: -1})
+		}
+	}
+	// a tail of nil / empty / short records, a seek back to the first of them, then less data than was rolled
+	// back (possibly nothing) before Close: the only records after the seek target are ones that carry no payload
+	if !c.direct && r.Chance(15) {
+		first := 0
+		for _, o := range c.ops {
+			if o.kind != "s" {
+				first++
+			}
+		}
+		tail := 1 + r.Intn(3)
+		for i := 0; i < tail; i++ {
+			var p []byte
+			if r.Chance(30) {
+				p = []byte{}
+			}
+			c.ops = append(c.ops, wop{kind: "w", rec: p})
+			c.payloads = append(c.payloads, p)
+		}
+		c.ops = append(c.ops, wop{kind: "s", seekIdx: first + r.Intn(tail)})
+		if r.Chance(40) {
+			var p []byte
+			if r.Chance(50) {
+				p = []byte{byte(r.Next())}
+			}
+			c.ops = append(c.ops, wop{kind: "w", rec: p})
+			c.payloads = append(c.payloads, p)
 		}
 	}
 	return c
@@ -314,6 +343,9 @@ func rioOne(res *Result, drv *Driver, r *Rng, c *rioCase, idx int, path string, 
 			var target uint64
 			choice := o.off % 10
 			switch {
+			case o.seekIdx >= 0 && o.seekIdx < len(written):
+				target = written[o.seekIdx]
+				res.Stat("seek:nil-tail")
 			case choice < 6 && len(written) > 0:
 				target = written[int(o.off/16)%len(written)]
 				if target > w.Size() {
